@@ -166,7 +166,7 @@ def run_sharded(exe, lines, timeout=1200, shards=None):
     return out
 
 
-def run_model(lines, timeout=3000):
+def run_model(lines, timeout=6000):
     return run_sharded(DRIVER, lines, timeout)
 
 
